@@ -152,6 +152,10 @@ static int run_peaceman(const std::string& in, const std::string& out) {
 // ---- histories ----
 static std::string sel_items(const json& s, int hi, int hj, bool wpimult) {
     auto n = [](int v) { return v == 0 ? std::string("1*") : std::to_string(v); };
+    if (s["k"].get<int>() >= 100) {          // a cell of the well with laterals, given in full
+        const int cid = s["k"];
+        return std::to_string(cid / 100) + " " + std::to_string((cid / 10) % 10) + " " + std::to_string(cid % 10) + " " + n(s["c1"]) + " " + n(s["c2"]);
+    }
     std::string ij = s["ij"] == "default" ? "1* 1*" : s["ij"] == "head" ? std::to_string(hi) + " " + std::to_string(hj) : "2 2";
     (void)wpimult;
     return ij + " " + n(s["k"]) + " " + n(s["c1"]) + " " + n(s["c2"]);
@@ -164,17 +168,25 @@ static int run_history(const std::string& in, const std::string& out) {
         tr.emit({{"e", "Reset"}, {"id", id++}});
         const int nk = sc["nk"];
         std::ostringstream d;
-        d << "RUNSPEC\nDIMENS\n 3 3 " << nk << " /\nOIL\nWATER\nMETRIC\nTABDIMS\n/\nWELLDIMS\n 4 10 2 4 /\nSTART\n 1 JAN 2020 /\n"
+        d << "RUNSPEC\nDIMENS\n 3 3 " << nk << " /\nOIL\nWATER\nMETRIC\nTABDIMS\n/\nWELLDIMS\n 4 12 2 4 /\nSTART\n 1 JAN 2020 /\n"
           << "GRID\nDX\n " << 9 * nk << "*100 /\nDY\n " << 9 * nk << "*100 /\nDZ\n " << 9 * nk << "*10 /\nTOPS\n 9*2000 /\n"
           << "PERMX\n " << 9 * nk << "*100 /\nPERMY\n " << 9 * nk << "*100 /\nPERMZ\n " << 9 * nk << "*10 /\nPORO\n " << 9 * nk << "*0.25 /\n"
-          << "PROPS\nSOLUTION\nSCHEDULE\nWELSPECS\n 'W1' 'G' 1 1 1* OIL /\n 'W2' 'G' 3 3 1* OIL /\n/\nCOMPORD\n 'W1' INPUT /\n/\n";
-        auto head = [](const std::string& w) { return w == "W1" ? 1 : 3; };
+          << "PROPS\nSOLUTION\nSCHEDULE\nWELSPECS\n 'W1' 'G' 1 1 1* OIL /\n 'W2' 'G' 3 3 1* OIL /\n 'W3' 'G' 2 2 1* OIL /\n/\nCOMPORD\n 'W1' INPUT /\n/\n";
+        auto head = [](const std::string& w) { return w == "W1" ? 1 : w == "W2" ? 3 : 2; };
+        // W3 has laterals: its cells are ids 100 i + 10 j + k
+        auto free = [](const std::string& w) { return w == "W3"; };
         for (const auto& step : sc["steps"]) {
             for (const auto& o : step) {
                 const std::string w = o["well"];
                 const int h = head(w);
                 if (o["op"] == "COMPDAT") {
                     const int rec = o["rec"];
+                    if (free(w)) {
+                        const int cid = o["k1"];
+                        d << "COMPDAT\n '" << w << "' " << cid / 100 << " " << (cid / 10) % 10 << " " << cid % 10 << " " << cid % 10 << " " << o["state"].get<std::string>()
+                          << " 1* " << rec * 10 << " 0.2 " << rec * 100 << " 0 1* Z /\n/\n";
+                        continue;
+                    }
                     d << "COMPDAT\n '" << w << "' " << h << " " << h << " " << o["k1"] << " " << o["k2"] << " " << o["state"].get<std::string>()
                       << " 1* " << rec * 10 << " 0.2 " << rec * 100 << " 0 1* Z /\n/\n";
                 } else if (o["op"] == "WPIMULT") {
@@ -195,15 +207,17 @@ static int run_history(const std::string& in, const std::string& out) {
             std::size_t s = 0;
             for (const auto& step : sc["steps"]) {
                 json obs = json::object();
-                for (const char* w : {"W1", "W2"}) {
+                for (const char* w : {"W1", "W2", "W3"}) {
                     json lst = json::array();
+                    if (!sched.hasWell(w)) { obs[w] = lst; continue; }
                     for (const auto& c : sched.getWell(w, s).getConnections()) {
                         const double kh = us.from_si(UnitSystem::measure::effective_Kh, c.Kh()) / 100.0;
                         const double cf = us.from_si(UnitSystem::measure::transmissibility, c.CF()) / 10.0;
                         const long rec = std::lround(kh);
                         const long mult = rec > 0 ? std::lround(cf / rec) : -1;
                         const bool exact = std::abs(kh - rec) < 1e-9 * std::max(1.0, kh) && std::abs(cf - double(rec * mult)) < 1e-9 * std::max(1.0, cf);
-                        lst.push_back({{"k", c.getK() + 1}, {"ijhead", c.getI() + 1 == head(w) && c.getJ() + 1 == head(w)}, {"complnum", c.complnum()},
+                        lst.push_back({{"k", free(w) ? 100 * (c.getI() + 1) + 10 * (c.getJ() + 1) + c.getK() + 1 : c.getK() + 1},
+                                       {"ijhead", free(w) || (c.getI() + 1 == head(w) && c.getJ() + 1 == head(w))}, {"complnum", c.complnum()},
                                        {"sort", int(c.sort_value())}, {"state", Opm::Connection::State2String(c.state())},
                                        {"rec", exact ? rec : -1}, {"mult", exact ? mult : -1}});
                     }
